@@ -371,6 +371,10 @@ def run_case(case: dict) -> dict:
             _measure_ops(case, simroot, st, mw=case["mw_measure"], io_dir=os.path.join(simroot, "io"))
             return True
 
+        from sim import procstate
+
+        procstate.uninstall()
+        procstate.install()  # every rank is a process of its own: rank-local memo caches
         sim = Sim(
             case.get("sched_seed", 0), choices=case.get("schedule"), policy=case.get("policy", "prng"),
             fs_root=simroot, step_cap=case.get("step_cap", 120_000),
@@ -457,6 +461,9 @@ def run_case(case: dict) -> dict:
             res.update(signature=sig, detail=detail, tail=tail)
         return res
     finally:
+        from sim import procstate
+
+        procstate.uninstall()
         shutil.rmtree(root, ignore_errors=True)
 
 
